@@ -239,6 +239,9 @@ func checkSinkStream(prop string, p *ProdPlan, obs *ProdObs, out *RunOut) {
 	lastHeal := time.Duration(0)
 	fired := 0
 	for _, f := range obs.Script {
+		if f.Fired && f.Kind == "stall" {
+			continue // a sink that reads slowly has not failed: nothing may be lost
+		}
 		if f.Fired {
 			fired++
 			budget += f.DeadAccept + 3
@@ -372,6 +375,9 @@ func genProdPlan(seed int64, tier string) *ProdPlan {
 						break
 					}
 				}
+			}
+			if p.Proto == "tcp" && r.Intn(4) == 0 {
+				f.Kind, f.DeadAccept = "stall", 0
 			}
 			switch r.Intn(4) {
 			case 0:
